@@ -39,6 +39,22 @@ def class_field_defs(prog, rec_id):
                 v = ex.var_of(d.c[0])
                 if v is not None and prog.vars[v]['kind'] == 'field':
                     res.setdefault(v, []).append((fn, d.c[1]))
+    # members set in the member-initialiser list of the (non-copy) constructors and never assigned in a body
+    inits = {}
+    for fn in prog.functions:
+        if fn.j.get('rec_id') != rec_id or fn.implicit or not fn.fref.get('ctor'):
+            continue
+        fr = fn.fref
+        if fr.get('copy_ctor') or fr.get('move_ctor'):
+            continue
+        if len(fn.param_ids) == 1 and 'adjacency_list' not in (prog.type(prog.vars[fn.param_ids[0]]['ty']) or {}).get('canon', '').split('ForestIndex')[0] and \
+                CLS.split('::')[-1] in (prog.type(prog.vars[fn.param_ids[0]]['ty']) or {}).get('canon', ''):
+            continue
+        for ci in fn.ctor_inits:
+            if 'field' in ci and 'node' in ci and ci.get('written') and ci['field'] not in res:
+                inits.setdefault(ci['field'], []).append((fn, ci['node']))
+    for f_, lst in inits.items():
+        res[f_] = lst
     return res
 
 
@@ -687,6 +703,56 @@ def _early_forest_complete(prog, fn, r, g):
     return ('ok', 'the early return fires after n - 1 tree edges (every vertex reached) in all %d graph shapes' % evaluated)
 
 
+def check_self_references(rep, prog):
+    """R16d (extension): a data member that holds iterators or pointers (a table of std::map iterators, raw pointers) into a sibling member is
+    only valid for the object it was built in.  A copy operation that copies such a table member-wise - hand-written `x = other.x` or a
+    defaulted / implicit copy - leaves the copy pointing into the *source* object's container: lookups through the copy read freed nodes
+    once the source is gone (a ForestIndex kept in a growing std::vector is copied and its source destroyed on reallocation)."""
+    what = 'no table of iterators / pointers into a sibling member is copied member-wise'
+    n = 0
+    for rec in prog.records:
+        if not isinstance(rec, dict) or rec.get('g') != CLS or rec.get('fields') is None:
+            continue
+        rid = prog.records.index(rec)
+        refs = []
+        for fid in rec.get('fields', []):
+            t = prog.base_type(prog.vars[fid].get('ty')) or {}
+            canon = t.get('canon') or ''
+            inner = canon[canon.find('<') + 1:] if '<' in canon else ''
+            if (t.get('rec') or '').startswith('std::') and ('_Rb_tree_const_iterator' in inner or '_Rb_tree_iterator' in inner or '_Node_iterator' in inner or
+                                                             '__normal_iterator' in inner or '_List_iterator' in inner or inner.split(',')[0].strip().endswith('*')):
+                refs.append(fid)
+        n += 1
+        if not refs:
+            rep.ok('R16d', None, None, what, 'no member of %s holds iterators or pointers' % CLS, key='R16d|%s|self-ref' % CLS)
+            continue
+        fns = [f for f in prog.functions if f.j.get('rec_id') == rid]
+        copies = [f for f in fns if f.fref.get('copy_ctor') or f.fref.get('copy_assign') or f.fref.get('move_ctor') or f.fref.get('move_assign')]
+        bad = None
+        for f in copies:
+            if f.implicit or f.fref.get('defaulted'):
+                bad = (f, 'the %s copy operation copies' % ('defaulted' if not f.implicit else 'implicit'))
+                break
+            for d in f.walk():
+                if d.k == 'MemberExpr' and d.decl_id in refs and d.c and ex.var_of(d.c[0]) in f.param_ids:
+                    bad = (f, '`%s` copies' % (d.enclosing_stmt() or d).text(40))
+                    break
+            for ci in f.ctor_inits:
+                if 'field' in ci and ci['field'] in refs and 'node' in ci and any(x.k == 'MemberExpr' and x.decl_id == ci['field'] for x in ci['node'].walk()):
+                    bad = (f, 'the member initialiser copies')
+            if bad:
+                break
+        fld = prog.vars[refs[0]]['name']
+        if bad:
+            rep.violation('R16d', bad[0].body, bad[0], what, '%s `%s`, a table of iterators / pointers into a sibling member of the source object: the copy refers to the source\'s '
+                          'container and dangles once the source is destroyed' % (bad[1], fld), key='R16d|%s|self-ref' % CLS)
+        elif copies:
+            rep.ok('R16d', copies[0].body, copies[0], what, '`%s` is rebuilt, not copied' % fld)
+        else:
+            rep.undecided('R16d', None, None, what, 'member `%s` holds iterators / pointers and no copy operation of %s was found to judge' % (fld, CLS))
+    return n
+
+
 def check_forest_emission(rep, prog):
     """R16f: spanning_forest emits an edge only when its far endpoint is still unreached, and on that path removes the endpoint from
     the unreached set and queues it (so that every vertex is attached once: acyclic, and every reached vertex is explored)"""
@@ -794,8 +860,13 @@ def check_forest_emission(rep, prog):
                 if x.k == 'CXXMemberCallExpr' and x.callee and x.callee['name'] in ('push', 'push_back', 'emplace', 'emplace_back', 'push_front') and x.args() and \
                         ex.var_of(x.object_arg()) not in sets and any(ex.key(x.args()[-1]) == ex.key(kn) for kn in sets.values()):
                     pushed = True       # the endpoint goes into the work list (queue, stack or vector with a read cursor)
+            cond_push = [x for x in fn.walk() if x.k == 'CXXMemberCallExpr' and x.callee and x.callee['name'] in ('push', 'push_back', 'emplace', 'emplace_back', 'push_front')
+                         and x.args() and ex.var_of(x.object_arg()) not in sets and any(ex.key(x.args()[-1]) == ex.key(kn) for kn in sets.values())
+                         and inner_loop is not None and inner_loop.is_ancestor_of(x) and cfg.reaches(d, x)]
             if erased and pushed:
                 rep.ok('R16f', d, fn, what, 'guarded by membership in the unreached set; erase + push in the same block')
+            elif erased and cond_push:
+                rep.undecided('R16f', d, fn, what, 'the endpoint is queued (line %d) on some paths after the emission only: whether the skipped case needs the endpoint explored is not decided' % cond_push[0].line)
             else:
                 rep.violation('R16f', d, fn, what, 'on the emitting path the endpoint is %s' % ('not removed from the unreached set' if not erased else 'not queued for exploration'),
                               key='R16f|%s|bookkeeping' % fn.g)
@@ -888,6 +959,7 @@ def run_on(rep, prog):
     check_spanning_forest(rep, prog)
     check_forest_emission(rep, prog)
     c17.check_copy_ops(rep, prog, CLS, 'R16d')
+    check_self_references(rep, prog)
     c04.check_forest_order(rep, prog)
     check_table_lifecycle(rep, prog)
     from . import c07
